@@ -1,7 +1,8 @@
 (* Expand/Fields.v — model of the field-splitting part of expand/expand.go:
    Config.wordFields with its closures flush / delimit / splitAdd, Config.ifsRune,
    Config.ifsWhitespace, Config.ifsJoin, the quoted "$@" / "$*" paths and the
-   unquoted $@ / $* path, as of the repaired code (fix: commit 3616507).
+   unquoted $@ / $* path, as of the repaired code (fix: commits 3616507, 82ad724,
+   31a29f2, ac9f79b, f79d77d).
 
    Strings are lists of code points (the Go loops range over runes; the harness
    feeds valid UTF-8 only, so rune index = position in the list).  A word is a
